@@ -92,6 +92,19 @@ pub fn check_state(c: &StateCase) -> CheckResult {
     Ok(CaseInfo::new(s.weight() >= 2 && !gens::is_anchor(c.ty, &c.s.bytes)).class(jname(c.long)).class(format!("s:{}", c.s.class)))
 }
 
+/// the state is the preimage of a structured *target* under J resp. L: special cases keyed on
+/// the result of the jump are reached
+pub fn check_preimage(c: &StateCase) -> CheckResult {
+    let t = Bits::from_bytes(&c.s.bytes);
+    let (ji, li) = linear::jump_inverses(c.ty).map_err(inconcl)?;
+    let s = if c.long { li.apply(&t) } else { ji.apply(&t) };
+    if s.is_zero() {
+        return Ok(CaseInfo::new(false).class("degenerate"));
+    }
+    check_state_bits(c.ty, &s, c.long, c.outputs, "preimage")?;
+    Ok(CaseInfo::new(true).class(jname(c.long)).class(format!("t:{}", c.s.class)))
+}
+
 pub fn check_linear(c: &PairCase) -> CheckResult {
     let (a, b) = (Bits::from_bytes(&c.a.bytes), Bits::from_bytes(&c.b.bytes));
     let ab = a.xor(&b);
@@ -173,6 +186,12 @@ pub fn def(ctx: &Ctx) -> PropDef {
             check_state,
         ));
         subs.push(PSub::boxed(
+            format!("preimage/{}", ty.name()),
+            t.pick(4000, 600_000),
+            move || (gens::target_state(ty), any::<bool>(), prop_oneof![Just(0usize), 1usize..=8]).prop_map(move |(s, long, outputs)| StateCase { ty, s, long, outputs }).boxed(),
+            check_preimage,
+        ));
+        subs.push(PSub::boxed(
             format!("linear/{}", ty.name()),
             t.pick(2000, 250_000),
             move || (gens::seed_for(ty, false), gens::seed_for(ty, false), any::<bool>()).prop_map(move |(a, b, long)| PairCase { ty, a, b, long }).boxed(),
@@ -187,7 +206,7 @@ pub fn def(ctx: &Ctx) -> PropDef {
     }
     PropDef {
         id: "C06",
-        rule: "for each of the 12 jump-capable types: T is extracted from the type's own next (n executions on the basis states), J = T^(2^(n/2)) and L = T^(2^(3n/4)) by repeated squaring; then (a) jump()/long_jump() on ALL n basis states and on generated states (uniform, sparse, dense, special words, single byte) must land on from_seed(J·s) resp. from_seed(L·s) (== and up to 64 following outputs), (b) jump/long_jump are linear on generated pairs (so the basis result extends to every state), (c) metamorphic relations without a model: jump∘next^k = next^k∘jump, jump∘long_jump = long_jump∘jump, up to 8 repeated jumps are pairwise different and equal J^i·s. Non-trivial = generated state of weight >= 2 that is not the crate's jump-test seed; distinct by hash of the case.".into(),
+        rule: "for each of the 12 jump-capable types: T is extracted from the type's own next (n executions on the basis states), J = T^(2^(n/2)) and L = T^(2^(3n/4)) by repeated squaring; then (a) jump()/long_jump() on ALL n basis states and on generated states (uniform, sparse, dense, special words, single byte) must land on from_seed(J·s) resp. from_seed(L·s) (== and up to 64 following outputs), (b) jump/long_jump are linear on generated pairs (so the basis result extends to every state), (a') the same on preimages J^-1·t / L^-1·t of structured TARGET states t (zero words, small words, equal / complementary / negated words, constant words), so that special cases keyed on the result of a jump are reached, (c) metamorphic relations without a model: jump∘next^k = next^k∘jump, jump∘long_jump = long_jump∘jump, up to 8 repeated jumps are pairwise different and equal J^i·s. Non-trivial = generated state of weight >= 2 that is not the crate's jump-test seed; distinct by hash of the case.".into(),
         explanation: Some("2^64 .. 2^384 single steps cannot be executed. The generated inputs establish that next is the linear map T (C07's linearity and agreement checks, repeated here for jump itself) and that jump is linear; two linear maps that agree on a basis agree everywhere, so agreement of jump() with J = T^(2^(n/2)) on all n basis states plus linearity of jump on generated pairs gives jump = J on every state, up to linearity outside the sampled pairs. J and L are computed exactly by n/2 resp. 3n/4 matrix squarings from the T of this build.".into()),
         assumptions: vec!["next and jump are GF(2)-linear outside the sampled states (sampled: BLR relation on generated pairs)".into(), "state observation = serde image validated by from_seed(image) == g".into()],
         subs,
